@@ -134,6 +134,11 @@ func (d *destination) unlock(now, end common.Timestamp, dry bool) (
 	if err != nil {
 		return 0, err
 	}
+	// the float product is not exact for amounts above 2^53: never vest more than
+	// what is left, and drain exactly what is left when the pool is ending
+	if ending || amount > left {
+		amount = left
+	}
 
 	if !dry {
 		err = d.move(now, amount)
